@@ -1692,6 +1692,54 @@ def merge_corpus():
     return cs
 
 
+def boundary_corpus():
+    """ARITHMETIC DOMAINS (seeded change C17-11: a uint64 above MaxInt64 wrapped negative on the YAML path): integers at
+    the type boundaries 2^31, 2^32, 2^53 (-1, +1), 2^63-1, 2^63, 2^63+1, 2^64-1 and negatives down to -2^63, at every
+    position (field, list element, map value; map KEY in hand-written texts) into uint64 / int64 / float64 / string
+    targets (any: below).  Values inside int64 run as three-format load cases; 2^63 .. 2^64-1 cannot be written in TOML
+    and run as JSON + YAML cases (kind nulls / CaseNull: same verdict and equal values demanded, judged against the
+    model).  (2^64 and beyond, below -2^63: yaml.v2 itself reads a float — not an integer document any more.)"""
+    pos = [2 ** 31 - 1, 2 ** 31 + 1, 2 ** 32 - 1, 2 ** 32 + 1, 2 ** 53 - 1, 2 ** 53 + 1, 2 ** 63 - 1]
+    neg = [-(2 ** 31) - 1, -(2 ** 32) - 1, -(2 ** 53) - 1, -(2 ** 63)]
+    big = [2 ** 63, 2 ** 63 + 1, 2 ** 64 - 1]
+    opt = O(opt=True)
+    cs = []
+    for k in ("uint64", "int64", "float64", "string"):
+        typ = [F("X", P(k), opt), F("L", Sl(P(k)), opt), F("M", Mp(P(k)), opt), F("P", Ptr(P(k)), opt)]
+        for v in pos + neg + big:
+            kind = "nulls" if v in big else "load"
+            fits = {"uint64": 0 <= v < 2 ** 64, "int64": -2 ** 63 <= v < 2 ** 63, "float64": True, "string": False}[k]
+            parts = [("X", di(v)), ("L", dl(di(1), di(v))), ("M", dm(("k", di(v)), ("j", di(7)))), ("P", di(v))]
+            docs = [dm(*parts)] if fits else [dm(p) for p in parts[:3]]
+            # a float64 target of an integer with more than 15 digits: the model computes in exact decimals, so these are
+            # judged by the property alone (three formats as a shape case; JSON + YAML with exact = false)
+            inexact = k == "float64" and len(str(abs(v))) > 15
+            for j, d in enumerate(docs):
+                c = {"kind": kind, "tag": "bound-%s-%d-%d" % (k, v, j), "type": typ, "doc": d, "doc2": None, "env": None}
+                if inexact and kind == "load":
+                    c.update({"kind": "shape", "noload": False})
+                elif inexact:
+                    c["inexact"] = True
+                cs.append(c)
+    # map KEYS written as integers (YAML non-string keys, TOML bare keys); interface{} targets
+    T = [F("MK", Mp(P("string")))]
+    keys3 = pos + neg
+    cs.append({"kind": "load", "tag": "bound-keys", "type": T, "env": None, "doc2": None,
+               "doc": dm(("MK", dm(*[(str(v), ds("v%d" % i)) for i, v in enumerate(keys3)]))),
+               "texts": {"json": json.dumps({"MK": {str(v): "v%d" % i for i, v in enumerate(keys3)}}),
+                         "yaml": "MK:\n" + "".join("  %d: v%d\n" % (v, i) for i, v in enumerate(keys3)),
+                         "toml": "[MK]\n" + "".join("%s = \"v%d\"\n" % (str(v) if v >= 0 else '"%d"' % v, i) for i, v in enumerate(keys3))}})
+    cs.append({"kind": "nulls", "tag": "bound-keys-big", "type": T, "env": None, "doc2": None,
+               "doc": dm(("MK", dm(*[(str(v), ds("v%d" % i)) for i, v in enumerate(big)]))),
+               "texts": {"json": json.dumps({"MK": {str(v): "v%d" % i for i, v in enumerate(big)}}),
+                         "yaml": "MK:\n" + "".join("  %d: v%d\n" % (v, i) for i, v in enumerate(big))}})
+    cs.append({"kind": "shape", "tag": "bound-any", "env": None, "noload": False, "doc2": None,
+               "type": [F("A", Mp(P("any"))), F("N", Mp(P("num")), O(opt=True))],
+               "doc": dm(("A", dm(*[("k%d" % i, di(v)) for i, v in enumerate(pos + neg)] + [("l", dl(*[di(v) for v in pos + neg]))])),
+                         ("N", dm(*[("k%d" % i, ds(str(v))) for i, v in enumerate(pos + neg)])))})
+    return cs
+
+
 def null_corpus():
     """documents WITH nulls, JSON and YAML only (TOML has no null, so they are outside the three-format quantifier):
     the executor witness of Props.yaml_null_refuted (JSON null is 'absent', YAML null arrives as the string "") and
@@ -1963,7 +2011,7 @@ class C17(Property):
                  "doc2": dm(("VALUE", dm(("first", dm(("User", dm(("user", ds("u")))))))), ("l", dl(dm(("User", dm(("User", ds("w")))))))),
                  "env": None},
             ]
-        cs = merge_corpus() + spelling_corpus() + number_corpus() + cs + raw_corpus() + bad_corpus() + null_corpus() + lexeme_corpus()
+        cs = merge_corpus() + spelling_corpus() + number_corpus() + boundary_corpus() + cs + raw_corpus() + bad_corpus() + null_corpus() + lexeme_corpus()
         # aliasing witnesses (seeded change C17-4): two entries, two cells
         for kind, key in (("std", "limits"), ("load", "Limits"), ("mfmt", "Limits")):
             cs.append({"kind": kind, "type": [F(key, Mp(Ptr(P("int")))), F("rates", Mp(Mp(Ptr(P("float64")))), None if kind == "std" else O(opt=True))],
@@ -2192,7 +2240,8 @@ class C17(Property):
                                                   cob3({f: mc.get("r" + f) for f in ("json", "yaml", "toml")}))
         if case["kind"] == "nulls":
             l = obs.get("load") or {}
-            return "CaseNull %s %s %s %s" % (cfields(case["type"]), cdoc(case["doc"]), cob(l.get("json")), cob(l.get("yaml")))
+            return "CaseNull %s %s %s %s %s" % (cfields(case["type"]), cdoc(case["doc"]), cob(l.get("json")), cob(l.get("yaml")),
+                                                cbool(not case.get("inexact")))
         d2 = case.get("doc2")
         w = obs.get("white") or {}
         info = "None"
